@@ -42,6 +42,25 @@ func genC14(t *rapid.T) decCase {
 	equaliseDefaults(t, s, v, 0)
 	c := decCase{S: s}
 	c.Msg, c.Edits = genWireMsg(t, s, v, wireEditCfg{Shuffle: true, Insert: true, Trailing: true, MaxInsert: 2})
+	if rapid.IntRange(0, 29).Draw(t, "bigmsg") == 0 {
+		// a message of more than a megabyte around the same fields: one long unknown string in front
+		id := 31000
+		for s.ByID(uint16(id)) != nil {
+			id++
+		}
+		n := rapid.SampledFrom([]int{1 << 20, 1<<20 + 1, 1<<20 + 4096, 3 << 20}).Draw(t, "bigmsglen")
+		big := make([]byte, 7+n, 7+n+len(c.Msg))
+		big[0], big[1], big[2] = 0x0b, byte(id>>8), byte(id)
+		big[3], big[4], big[5], big[6] = byte(n>>24), byte(n>>16), byte(n>>8), byte(n)
+		for i := 7; i < len(big); i++ {
+			big[i] = byte('A' + i%26)
+		}
+		c.Msg = append(big, c.Msg...)
+		if c.Edits == nil {
+			c.Edits = map[string]int{}
+		}
+		c.Edits["message>1MiB"]++
+	}
 	return c
 }
 
